@@ -643,6 +643,8 @@ fn dump<'tcx>(tcx: TyCtxt<'tcx>, out_path: &str) {
     // ADTs, impls, traits
     let mut adts = Vec::new();
     let mut impls = Vec::new();
+    let mut traits = Vec::new();
+    let mut mods = Vec::new();
     let mut fns_unsafe = Vec::new();
     for id in tcx.hir_free_items() {
         let did = id.owner_id.to_def_id();
@@ -670,6 +672,25 @@ fn dump<'tcx>(tcx: TyCtxt<'tcx>, out_path: &str) {
                         .s("kind", &format!("{:?}", tcx.def_kind(did)))
                         .s("vis", &format!("{:?}", tcx.visibility(did)))
                         .raw("variants", arr(vs))
+                        .done(),
+                );
+            }
+            DefKind::Trait => {
+                let ev = tcx.effective_visibilities(());
+                traits.push(
+                    Obj::new()
+                        .s("path", &d.path(did))
+                        .s("vis", &format!("{:?}", tcx.visibility(did)))
+                        .b("reachable", did.as_local().map(|l| ev.is_reachable(l)).unwrap_or(false))
+                        .b("exported", did.as_local().map(|l| ev.is_exported(l)).unwrap_or(false))
+                        .done(),
+                );
+            }
+            DefKind::Mod => {
+                mods.push(
+                    Obj::new()
+                        .s("path", &d.path(did))
+                        .s("vis", &format!("{:?}", tcx.visibility(did)))
                         .done(),
                 );
             }
@@ -744,6 +765,8 @@ fn dump<'tcx>(tcx: TyCtxt<'tcx>, out_path: &str) {
         .raw("macros", arr(d.macro_tab.iter().map(|m| esc(m)).collect()))
         .raw("adts", arr(adts))
         .raw("impls", arr(impls))
+        .raw("traits", arr(traits))
+        .raw("mods", arr(mods))
         .raw("layouts", arr(layouts))
         .raw("unsafe_blocks", arr(unsafe_blocks))
         .raw("unsafe_fns", arr(fns_unsafe))
